@@ -228,7 +228,8 @@ PROPS = {
                "cases = (routes, stop mode and number of shutdown threads, number of concurrent add_route threads, follow-up activity, jitter); non-trivial = >=1 route alive with traffic in flight at the stop, or >=2 threads racing; distinct = distinct (build, canonical JSON)"),
     ),
     "C20": dict(
-        jobs=lambda tier: [dict(build="async", params={"sndbuf": "4096", "cases": "2400" if tier == "quick" else "48000"}, shards=12 if tier == "quick" else 16)],
+        jobs=lambda tier: [dict(build="async", params={"sndbuf": "4096", "cases": "2400" if tier == "quick" else "48000"}, shards=12 if tier == "quick" else 16),
+                           dict(build="async-inproc", params={"sndbuf": "4096", "cases": "800" if tier == "quick" else "16000"}, shards=4 if tier == "quick" else 8)],
         meta=M("exploration",
                "generated concurrent to_stream conversions and traffic against the real async routing thread, consumed by a manual poll loop with a counting waker, block_on(collect) and a LocalPool; per-stream item logs as history oracle",
                "1..32 streams are created from 1..8 threads with 0..50 small/multi-packet messages per channel, a generated prefix queued before to_stream() and the rest sent afterwards with jitter, senders dropped at the end; 30% of the cases convert all receivers while idle in one burst and then require a single message per creator thread to be yielded before any other traffic exists. Consumers are a manual poll loop with a counting waker (a Pending must be followed by a wake-up once all senders finished), futures::executor::block_on(stream.collect()) on separate threads, and one LocalPool driving several streams. Each stream must yield exactly its own messages once, in order and whole, and end-of-stream only after its sender's drop began and after all items; all consumers must finish (hang rule).",
